@@ -307,7 +307,36 @@ func (n *quotedString) Text() string {
 
 // String returns the SQL/JSON path-encoded quoted string.
 func (n *quotedString) String() string {
-	return strconv.Quote(n.str)
+	return quote(n.str)
+}
+
+// quote returns s as a double-quoted SQL/JSON path string literal. It is
+// [strconv.Quote] except for the two escapes that Go writes and the path
+// lexer does not read, \a and \UXXXXXXXX, which become \u0007 and \u{X...}.
+func quote(s string) string {
+	q := strconv.Quote(s)
+	if !strings.Contains(q, `\a`) && !strings.Contains(q, `\U`) {
+		return q
+	}
+
+	buf := new(strings.Builder)
+	for i := 0; i < len(q); i++ {
+		switch {
+		case q[i] != '\\' || i+1 >= len(q):
+			buf.WriteByte(q[i])
+		case q[i+1] == 'a':
+			buf.WriteString(`\u0007`)
+			i++
+		case q[i+1] == 'U' && i+10 <= len(q):
+			buf.WriteString(`\u{` + strings.TrimLeft(q[i+2:i+10], "0") + `}`)
+			i += 9
+		default:
+			buf.WriteString(q[i : i+2])
+			i++
+		}
+	}
+
+	return buf.String()
 }
 
 // writeTo writes n.String to buf.
@@ -874,7 +903,7 @@ func (n *RegexNode) writeTo(buf *strings.Builder, _, withParens bool) {
 	}
 
 	n.operand.writeTo(buf, false, n.operand.priority() <= n.priority())
-	fmt.Fprintf(buf, " like_regex %q%v", n.pattern, n.flags)
+	fmt.Fprintf(buf, " like_regex %v%v", quote(n.pattern), n.flags)
 
 	if withParens {
 		buf.WriteRune(')')
